@@ -922,7 +922,7 @@ def run(out, ctx):
     tier, seed = ctx["tier"], ctx["seed"]
     rng = random.Random(seed * 104729 + 15)
     nc = dict(objective=54, bound=16, objective_b=12, bound_b=8, grad=4, multi=14) if tier == "quick" else \
-        dict(objective=600, bound=200, objective_b=150, bound_b=80, grad=30, multi=150)
+        dict(objective=240, bound=70, objective_b=50, bound_b=32, grad=12, multi=60)   # ~4-5x the quick tier (sized to 15-20 min idle)
     nc = {k: max(1, int(v * ctx.get("scale", 1.0))) for k, v in nc.items()}   # scale < 1 only in builder sensitivity runs
     cases = [gen_case(rng, tier, fam) for fam in ("objective", "bound") for _ in range(nc[fam])]
     cases += [gen_case(rng, tier, fam, batched=True) for fam in ("objective", "bound") for _ in range(nc[fam + "_b"])]
